@@ -90,6 +90,18 @@ def shapes_for(name, opts):
     return [(m, m, m), (m, m + 1, m + 2), (m + 2, m, m + 1), (m + 1, m + 2, m)]
 
 
+def long_shapes_for(name, opts):
+    """One LONG axis (each axis in turn; beyond any plausible block / slab / chunk size of a wrapper), the others
+    minimal: used with the contiguous binding and the dense pattern only."""
+    m = shapes_for(name, opts)[0][0]
+    d = registry.gen_dim(name)
+    if opts.get("fixed") or opts.get("length") or opts.get("grid") == "offset":
+        return []
+    if d == 2:
+        return [(70, m), (m, 70)]
+    return [(36, m, m), (m, 36, m), (m, m, 36)]
+
+
 def case_generator(name, opts, dtype, backend):
     real_t = np.dtype(dtype).type
     eps = float(np.finfo(real_t).eps)
@@ -103,7 +115,8 @@ def case_generator(name, opts, dtype, backend):
     outcomes = 0
     try:
         other_t = np.float32 if real_t == np.float64 else np.float64
-        for shape in shapes_for(name, opts):
+        short = shapes_for(name, opts)
+        for shape in short + long_shapes_for(name, opts):
             # construction history: the same generator is first instantiated for the OTHER precision and
             # a different thread setting (a cache keyed too coarsely would hand that kernel back)
             registry.instantiate(name, opts, other_t, num_threads=2, shape=shape)
@@ -113,11 +126,11 @@ def case_generator(name, opts, dtype, backend):
 
             prm = list(inspect.signature(fn).parameters.values())
             positional_ok = bool(prm) and all(q.kind == q.POSITIONAL_OR_KEYWORD for q in prm)  # raw generated kernels are keyword-only
-            for binding in BINDINGS:
+            for binding in (BINDINGS if shape in short else BINDINGS[:1]):
                 # the SAME array objects are passed for every pattern (re-filled in place): a kernel object
                 # is called repeatedly with identical scratch / output arrays, as the simulators do
                 views, bases = {}, {}
-                for pi, pattern in enumerate(PATTERNS):
+                for pi, pattern in enumerate(PATTERNS if shape in short else PATTERNS[:1]):
                     # scalar-argument alphabet (value x type of the object passed): all of it on the dense /
                     # contiguous combination, cycled over the others
                     if not sp["scalars"]:
@@ -326,6 +339,6 @@ def run(r) -> None:
     inpl = [dict(name=n, opts=o, dtype=dt) for n, o in registry.entries() if any(e in n for e in ELEMENTWISE) and not o.get("fixed") for dt in ("float64", "float32")]
     r.run_cases("in-place-calls", "inplace", inpl)
     r.run_cases("transient-view-history", "transient", [dict(name=n, opts=o, dtype=dt) for n, o in registry.entries() for dt in ("float64", "float32")])
-    r.bounds = {"generators_x_options": len(registry.entries()), "dtypes": 2, "shapes_per_generator": 4, "bindings": BINDINGS, "patterns": PATTERNS, "scalar_arguments": kernelspec.SCALAR_VARIANTS, "call_styles": ["keyword", "positional (wrapper closures)"], "backends": ["interp"] if quick else ["interp", "jit"]}
+    r.bounds = {"generators_x_options": len(registry.entries()), "dtypes": 2, "shapes_per_generator": "4 from the minimal size up + one long axis (70 / 36 cells) in every position", "bindings": BINDINGS, "patterns": PATTERNS, "scalar_arguments": kernelspec.SCALAR_VARIANTS, "call_styles": ["keyword", "positional (wrapper closures)"], "backends": ["interp"] if quick else ["interp", "jit"]}
     r.extra["rule"] = "one state per (generator option tuple, dtype, shape, binding, pattern, array argument): value on the documented region vs closed form, raw bytes everywhere else"
     r.assumptions = ["quick tier executes the captured kernels on the interpreter (bound to the generated code by conformance replay, incl. strided bindings); thorough tier repeats on the JIT back end (4-D kernels: interpreter only)"]
